@@ -619,10 +619,8 @@ let rec ainsert k v l = match l with
 
 (** val aremove : n -> (n * 'a1) list -> (n * 'a1) list **)
 
-let rec aremove k = function
-| [] -> []
-| p :: t ->
-  let (k', v') = p in if N.eqb k k' then t else (k', v') :: (aremove k t)
+let aremove k l =
+  filter (fun p -> negb (N.eqb (fst p) k)) l
 
 (** val sinsert : n -> n list -> n list **)
 
@@ -1985,7 +1983,9 @@ let rec merge_row fuel sc sv dc nw =
     (match sc with
      | [] ->
        (match dc with
-        | [] -> Some ([], [])
+        | [] -> (match nw with
+                 | Some _ -> None
+                 | None -> Some ([], []))
         | d :: dc' ->
           (match nw with
            | Some p ->
